@@ -27,6 +27,7 @@ Print Assumptions C07_unsafe_methods.
 
 Theorem C07_shape : forall q key,
   handle_unrecognized_method q key =
+  if req_only_if_cached (parse_cc (q_hdr q)) then Ret (OResp response_504) else
   Origin q (fun rep =>
     match rep with
     | RErr => Ret OErr
